@@ -57,6 +57,17 @@ func c17String(s []byte, dstScratch []byte) (nontrivial bool, err error) {
 	if len(b) < 3 || string(b[:3]) != "DST" || !bytes.Equal(b[3:], want) {
 		return nontrivial, fmt.Errorf("StdLibCompatibleStringBytes(%q, \"DST\") = %q; want \"DST\"+%q", s, b, want)
 	}
+	// destinations that end in an incomplete multi-byte sequence which the input's first
+	// bytes would complete: the result must still be dst ++ oracle(input)
+	if len(s) <= 6 || len(s)%7 == 0 {
+		for _, pre := range []string{"caf\xc3", "\xe2\x82", "\xf0\x9f", "\xf0\x9f\x98", "\xed", "x\xf4\x8f"} {
+			dst := append(dstScratch[:0], pre...)
+			b = rjson.StdLibCompatibleStringBytes(s, dst[:len(pre):len(pre)])
+			if len(b) < len(pre) || string(b[:len(pre)]) != pre || !bytes.Equal(b[len(pre):], want) {
+				return nontrivial, fmt.Errorf("StdLibCompatibleStringBytes(%q, dst=%q) = %q; want dst+%q", s, pre, b, want)
+			}
+		}
+	}
 	return nontrivial, nil
 }
 
